@@ -394,7 +394,7 @@ class CommandManager(object):
         specifying processes is currently not implemented
         '''
         if procs is None:
-            procs = list(range(self.comm.size))
+            procs = list(range(self.comm.Get_size()))
         pa = self.solver.particles[idx]
         pas = self.comm.gather(pa)
         return pas
@@ -405,7 +405,7 @@ class CommandManager(object):
         specifying processes is currently not implemented
         '''
         if procs is None:
-            procs = list(range(self.comm.size))
+            procs = list(range(self.comm.Get_size()))
         pa = self.solver.particles[idx]
         pas = self.comm.gather(pa)
         pa = ParticleArray(name=pa.name)
